@@ -235,7 +235,14 @@ func schedRun(scens []*scenario, prop string) func(c *mc.Ctx, s schedSpec) {
 				_, o1 := choicesOf(s1)
 				_, o2 := choicesOf(s2)
 				if fmt.Sprint(o1) != fmt.Sprint(o2) || fmt.Sprint(x1.obs) != fmt.Sprint(x2.obs) {
-					c.Notes = append(c.Notes, "NONDETERMINISTIC: two runs of the default schedule of "+sc.name+" differ")
+					d := ""
+					for i := 0; i < len(o1) && i < len(o2); i++ {
+						if fmt.Sprint(o1[i]) != fmt.Sprint(o2[i]) {
+							d = fmt.Sprintf("choice point %d: %v vs %v", i, o1[i], o2[i])
+							break
+						}
+					}
+					c.Notes = append(c.Notes, fmt.Sprintf("NONDETERMINISTIC: two runs of the default schedule of %s differ (%d vs %d points; %s; obs %v vs %v)", sc.name, len(o1), len(o2), d, x1.obs, x2.obs))
 				}
 				_ = root
 			}
